@@ -328,3 +328,158 @@ silent('c03-reorder-guards', 'C03',
         if isinstance(self.default_rule, dict):
             raise KeyError(key)
 """)])
+
+# ------------------------------------------------------------------ C04
+fire('c04-no-lower-left', 'C04',
+     [(C, "return match.lower() in [x.lower() for x in creds['roles']]",
+       "return match in [x.lower() for x in creds['roles']]")], 'C04.MEMBER')
+fire('c04-no-lower-right', 'C04',
+     [(C, "return match.lower() in [x.lower() for x in creds['roles']]",
+       "return match.lower() in [x for x in creds['roles']]")], 'C04.MEMBER')
+fire('c04-not-in', 'C04',
+     [(C, "return match.lower() in [x.lower() for x in creds['roles']]",
+       "return match.lower() not in [x.lower() for x in creds['roles']]")], 'C04.MEMBER')
+fire('c04-handler-true', 'C04',
+     [(C, "            # present in Target return false\n            return False\n        if 'roles' in creds:",
+       "            # present in Target return false\n            return True\n        if 'roles' in creds:")], 'C04.SUBST')
+fire('c04-no-roles-true', 'C04',
+     [(C, "            return match.lower() in [x.lower() for x in creds['roles']]\n        return False",
+       "            return match.lower() in [x.lower() for x in creds['roles']]\n        return True")], 'C04.ELSE-FALSE')
+fire('c04-other-key', 'C04',
+     [(C, "        if 'roles' in creds:\n            return match.lower() in [x.lower() for x in creds['roles']]",
+       "        if 'role' in creds:\n            return match.lower() in [x.lower() for x in creds['role']]")], 'C04.MEMBER')
+fire('c04-guard-mismatch', 'C04',
+     [(C, "        if 'roles' in creds:\n            return match.lower()",
+       "        if 'role' in creds:\n            return match.lower()")], 'C04.ELSE-FALSE')
+fire('c04-startswith', 'C04',
+     [(C, "return match.lower() in [x.lower() for x in creds['roles']]",
+       "return any(x.lower().startswith(match.lower()) for x in creds['roles'])")], 'C04.MEMBER')
+fire('c04-raw-match', 'C04',
+     [(C, """        try:
+            match = self.match % target
+        except KeyError:
+            # While doing RoleCheck if key not
+            # present in Target return false
+            return False
+        if 'roles' in creds:""", """        match = self.match
+        if 'roles' in creds:""")], 'C04')
+silent('c04-casefold', 'C04',
+       [(C, "return match.lower() in [x.lower() for x in creds['roles']]",
+         "return match.casefold() in [x.casefold() for x in creds['roles']]")])
+silent('c04-set', 'C04',
+       [(C, "return match.lower() in [x.lower() for x in creds['roles']]",
+         "return match.lower() in {x.lower() for x in creds['roles']}")])
+silent('c04-get-default', 'C04',
+       [(C, "        if 'roles' in creds:\n            return match.lower() in [x.lower() for x in creds['roles']]\n        return False",
+         "        return match.lower() in [x.lower() for x in creds.get('roles', [])]")])
+silent('c04-any-eq', 'C04',
+       [(C, "return match.lower() in [x.lower() for x in creds['roles']]",
+         "return any(x.lower() == match.lower() for x in creds['roles'])")])
+
+# ------------------------------------------------------------------ C05
+fire('c05-split-2', 'C05',
+     [(P, "kind, match = rule.split(':', 1)", "kind, match = rule.split(':', 2)")], 'C05.FALLBACK')
+fire('c05-eq-to-in', 'C05',
+     [(C, "            return match == str(test_value)\n\n        except ValueError:",
+       "            return match in str(test_value)\n\n        except ValueError:")], 'C05.LITERAL-FIRST')
+fire('c05-base-in', 'C05',
+     [(C, "        if len(path_segments) == 0:\n            return match == str(test_value)",
+       "        if len(path_segments) == 0:\n            return match in str(test_value)")], 'C05.WALK')
+fire('c05-any-to-all', 'C05',
+     [(C, """            for val in test_value:
+                if self._find_in_dict(val, path_segments, match):
+                    return True
+            return False""", """            for val in test_value:
+                if not self._find_in_dict(val, path_segments, match):
+                    return False
+            return True""")], 'C05.WALK')
+fire('c05-walk-target', 'C05',
+     [(C, "return self._find_in_dict(creds, path_segments, match)",
+       "return self._find_in_dict(target, path_segments, match)")], 'C05.WALK')
+fire('c05-quoted-first-only', 'C05',
+     [(P, "if len(tok) >= 2 and ((tok[0], tok[-1]) in",
+       "if len(tok) >= 2 and ((tok[0], tok[0]) in")], 'C05.QUOTED')
+fire('c05-missing-attr-true', 'C05',
+     [(C, "            test_value = test_value[key]\n        except KeyError:\n            return False",
+       "            test_value = test_value[key]\n        except KeyError:\n            return True")], 'C05.DENY')
+fire('c05-missing-target-true', 'C05',
+     [(C, "            # While doing GenericCheck if key not\n            # present in Target return false\n            return False",
+       "            # While doing GenericCheck if key not\n            # present in Target return false\n            return True")], 'C05.DENY')
+fire('c05-no-progress', 'C05',
+     [(C, "            return self._find_in_dict(test_value, path_segments, match)",
+       "            return self._find_in_dict(test_value, path_segments[1:], match)")], 'C05.WALK')
+fire('c05-none-first', 'C05',
+     [(P, """    if kind in extension_checks:
+        return extension_checks[kind](kind, match)
+    elif kind in _checks.registered_checks:
+        return _checks.registered_checks[kind](kind, match)
+    elif None in _checks.registered_checks:
+        return _checks.registered_checks[None](kind, match)""",
+       """    if None in _checks.registered_checks:
+        return _checks.registered_checks[None](kind, match)
+    elif kind in extension_checks:
+        return extension_checks[kind](kind, match)
+    elif kind in _checks.registered_checks:
+        return _checks.registered_checks[kind](kind, match)""")], 'C05.FALLBACK')
+fire('c05-swapped-ctor-args', 'C05',
+     [(P, "        return _checks.registered_checks[None](kind, match)",
+       "        return _checks.registered_checks[None](match, kind)")], 'C05.FALLBACK')
+fire('c05-split-kind-on-colon', 'C05',
+     [(C, "        path_segments = self.kind.split('.')", "        path_segments = self.kind.split('/')")], 'C05.WALK')
+fire('c05-raw-match', 'C05',
+     [(C, "        path_segments = self.kind.split('.')\n        return self._find_in_dict(creds, path_segments, match)",
+       "        path_segments = self.kind.split('.')\n        return self._find_in_dict(creds, path_segments, self.match)")], 'C05.WALK')
+silent('c05-startswith-quoted', ['C05', 'C01', 'C02'],
+       [(P, """            if len(tok) >= 2 and ((tok[0], tok[-1]) in
+                                  [('"', '"'), ("'", "'")]):""",
+         """            if len(tok) >= 2 and (
+                    (tok.startswith('"') and tok.endswith('"')) or
+                    (tok.startswith("'") and tok.endswith("'"))):""")])
+silent('c05-not-segments', 'C05',
+       [(C, "        if len(path_segments) == 0:\n            return match == str(test_value)",
+         "        if not path_segments:\n            return str(test_value) == match")])
+
+# ------------------------------------------------------------------ C06
+fire('c06-alias-current-rule', 'C06',
+     [(C, "                enforcer=enforcer,\n                current_rule=current_rule,\n            )\n        except KeyError:",
+       "                enforcer=enforcer,\n                current_rule=self.match,\n            )\n        except KeyError:")], 'C06.PASS-THROUGH')
+fire('c06-swap-target-creds', 'C06',
+     [(C, "        return not _check(self.rule, target, cred, enforcer, current_rule)",
+       "        return not _check(self.rule, cred, target, enforcer, current_rule)")], 'C06.PASS-THROUGH')
+fire('c06-adapter-gt5', 'C06',
+     [(C, "    if len(argspec.args) > 4:", "    if len(argspec.args) > 5:")], 'C06.ADAPTER')
+fire('c06-adapter-order', 'C06',
+     [(C, "    rule_args = [target, creds, enforcer]", "    rule_args = [creds, target, enforcer]")], 'C06.ADAPTER')
+fire('c06-adapter-always3', 'C06',
+     [(C, "    if len(argspec.args) > 4:\n        rule_args.append(current_rule)\n", "")], 'C06.ADAPTER')
+fire('c06-entry-none-name', 'C06',
+     [(POL, "                    enforcer=self,\n                    current_rule=rule,\n                )",
+       "                    enforcer=self,\n                    current_rule=None,\n                )")], 'C06.ENTRY')
+fire('c06-parse-time-resolve', 'C06',
+     [(C, """@register('rule')
+class RuleCheck(Check):
+    def __call__(self, target, creds, enforcer, current_rule=None):
+        try:
+            return _check(
+                rule=enforcer.rules[self.match],""", """@register('rule')
+class RuleCheck(Check):
+    def __call__(self, target, creds, enforcer, current_rule=None):
+        try:
+            if not hasattr(self, '_resolved'):
+                self._resolved = enforcer.rules[self.match]
+            return _check(
+                rule=self._resolved,""")], 'C06.LATE-LOOKUP')
+fire('c06-alias-no-catch', 'C06',
+     [(C, "        except KeyError:\n            # We don't have any matching rule; fail closed",
+       "        except ValueError:\n            # We don't have any matching rule; fail closed")], 'C06.UNDEFINED')
+silent('c06-positional-style', ['C06', 'C03', 'C14'],
+       [(C, """            return _check(
+                rule=enforcer.rules[self.match],
+                target=target,
+                creds=creds,
+                enforcer=enforcer,
+                current_rule=current_rule,
+            )""", """            return _check(enforcer.rules[self.match], target, creds,
+                          enforcer, current_rule)""")])
+silent('c06-adapter-ge5', 'C06',
+       [(C, "    if len(argspec.args) > 4:", "    if len(argspec.args) >= 5:")])
